@@ -46,11 +46,11 @@ class ReduceCapacity:
 
         def activate(e: Event) -> None:
             new_capacity = original_capacity * factor
-            resource._capacity - new_capacity
+            capacity_decrease = resource._capacity - new_capacity
             resource._capacity = new_capacity
-            # Clamp available to not exceed new capacity
-            if resource._available > new_capacity:
-                resource._available = new_capacity
+            # Take the lost capacity out of what is available. Units that are
+            # held stay held, so available may be negative until they return.
+            resource._available -= capacity_decrease
             logger.info(
                 "[FaultInjection] Reduced '%s' capacity to %.1f (factor=%.2f) at %s",
                 resource_name,
@@ -64,6 +64,7 @@ class ReduceCapacity:
             resource._capacity = original_capacity
             # Restore available by the same amount capacity increased
             resource._available += capacity_increase
+            resource._wake_waiters()
             logger.info(
                 "[FaultInjection] Restored '%s' capacity to %.1f at %s",
                 resource_name,
